@@ -341,6 +341,8 @@ def mutated_set(seed, i, corpus):
             data = "\n".join(out).encode()
             if rng.random() < 0.3:
                 data = data.rstrip(b"\n")
+            if rng.random() < 0.35:
+                data = data.replace(b"\r\n", b"\n").replace(b"\n", b"\r\n")
         elif op == "token_swap":
             toks = re.split(rb"(\s+)", data)
             if len(toks) > 4:
@@ -539,12 +541,26 @@ def check_locations_structured(s, wd, stats):
     r = run_proc([PWORKER, "history", "spec.json"], wd, sim_env(base_env(), entropy=1))
     stats["runs"] += 1
     viol = []
+    starts = set()      # (file, line, column) of the start of every Location of every diagnostic
+    have_all = True
     for line in r.out.decode(errors="replace").splitlines():
         try:
             rec = json.loads(line)
         except ValueError:
             continue
         for e in (rec.get("errors") or []) + (rec.get("lints") or []):
+            for fn0, a0, _b0, _ln0, _lo0 in LOC.findall(e):
+                t0 = texts.get(fn0)
+                if t0 is None:
+                    have_all = False
+                    continue
+                a0 = int(a0)
+                if a0 > len(t0):
+                    continue
+                # line and column the way the renderer counts them (ariadne's line terminators)
+                ls = max(t0.rfind(c, 0, a0) for c in ("\n", "\r", "\x0b", "\x0c", "\x85", "\u2028", "\u2029")) + 1
+                nl = 1 + sum(1 for k, ch in enumerate(t0[:a0]) if ch in "\n\x0b\x0c\x85\u2028\u2029" or (ch == "\r" and t0[k + 1:k + 2] != "\n"))
+                starts.add((fn0, nl, a0 - ls + 1))
             for fn, a, b, ln, lo in LOC.findall(e):
                 fn = fn.encode().decode("unicode_escape") if "\\" in fn else fn
                 stats["locations_checked"] += 1
@@ -579,6 +595,15 @@ def check_locations_structured(s, wd, stats):
                     if name not in got and "\\" not in name:
                         viol.append(("span_does_not_cover_named_text", "%s span %s..%s covers %r but the diagnostic is about %r: %s" %
                                      (fn, a, b, got, name, e[:200])))
+    # every `[ file:line:col ]` header of the rendered report is the start of one
+    # of the diagnostic's locations (wrong index type, shifted columns)
+    rendered = stats.get("base_stderr")
+    if rendered and have_all and starts and not viol:
+        for fn, line, col in HDR.findall(rendered):
+            if fn in texts and texts[fn] is not None and (fn, int(line), int(col)) not in starts:
+                near = sorted(x for x in starts if x[0] == fn)[:4]
+                viol.append(("header_is_no_location", "the report says %s:%s:%s but no location of any diagnostic starts there (locations start at %s)" % (fn, line, col, near)))
+                break
     seen = {}
     for c, d in viol:
         seen.setdefault(c, d)
